@@ -235,7 +235,7 @@ func c18(c *core.Ctx, r *core.Report) {
 					continue
 				}
 				first := arm.Instrs[0]
-				if an.ReachableFrom(first, sel) || first == ssa.Instruction(sel) {
+				if an.ReachableFromFeasible(first, sel) || first == ssa.Instruction(sel) {
 					r.Violation(key, pos, "the Done arm can loop back to the select: the goroutine does not exit on cancellation")
 					continue
 				}
